@@ -53,8 +53,10 @@ class IlluminaExonCorrector:
         introns = dict()
         for f in files:
             samfile = pysam.AlignmentFile(f, "rb") 
-            intr = samfile.find_introns(samfile.fetch(chromosome, start = start, stop = end))
-            introns = self.merge_dictionaries(introns, intr)
+            # a short-read file may not list this sequence at all (per-chromosome files): no junctions from it here
+            if samfile.get_tid(chromosome) >= 0:
+                intr = samfile.find_introns(samfile.fetch(chromosome, start = start, stop = end))
+                introns = self.merge_dictionaries(introns, intr)
             samfile.close()
             # in some cases counts might be necessary, so original is also saved
         i_list = set()
